@@ -3,7 +3,8 @@ import sys, json
 sys.path.insert(0,'/verif')
 from vx import run
 g=sys.argv[1]; canary = len(sys.argv)>2 and sys.argv[2]=='canary'
-r=run.check_group('/repo',g,'/var/tmp/vxb',canary=canary)
+import os
+r=run.check_group(os.environ.get('VERIF_REPO','/repo'),g,os.environ.get('VXB','/var/tmp/vxb'),canary=canary)
 print(r['status'], r.get('lost'), 'verified',r['verified'],'errors',r['errors'], 'wall', round(r['wall_s'],1))
 for f in r['failures'][:12]: print('FAIL', f['message'], f['part'], f['line'], f['labels']); print(f['rendered'][:900])
 for f in r['other_errors'][:8]: print('OTHER', f.get('message'), f.get('rendered','')[:700])
